@@ -129,6 +129,62 @@ func TestC20(t *testing.T) {
 			}
 		}
 	}
+	// nested series with large inner limits, valid values, every offset word bumped a little:
+	// an offset that points slightly past its series makes sibling / following data stand in for
+	// elements, and a later scope computation may wrap
+	{
+		gb := &gen{r: newRng(2021), maxElem: 3, noBool: true}
+		u8 := &Ty{Kind: "u", N: 1}
+		inner := &Ty{Kind: "list", Elem: &Ty{Kind: "list", Elem: u8, N: 32}, N: 1 << 22}
+		nested := []*Ty{
+			{Kind: "cont", Fields: []*Ty{{Kind: "list", Elem: inner, N: 8}, {Kind: "list", Elem: u8, N: 64}}},
+			{Kind: "list", Elem: inner, N: 8},
+			{Kind: "cont", Fields: []*Ty{{Kind: "vec", Elem: inner, N: 3}, {Kind: "bitlist", N: 1 << 30}}},
+			{Kind: "list", Elem: &Ty{Kind: "cont", Fields: []*Ty{inner, {Kind: "list", Elem: &Ty{Kind: "u", N: 8}, N: 1 << 30}}}, N: 4},
+		}
+		for _, ty := range nested {
+			for k := 0; k < 6; k++ {
+				v := gb.val(ty)
+				vw, err := buildViewSafe(ty, v)
+				if err != nil {
+					continue
+				}
+				data, err := serializeView(vw)
+				if err != nil || len(data) > 300 {
+					continue
+				}
+				do("nested", ty, data)
+				for i := 0; i+4 <= len(data); i += 4 {
+					w := binary.LittleEndian.Uint32(data[i:])
+					for _, d := range []uint32{1, 2, 4, 8, 12} {
+						if !thorough() && d != 4 && (i/4+int(d))%3 != 0 {
+							continue
+						}
+						c := append([]byte{}, data...)
+						binary.LittleEndian.PutUint32(c[i:], w+d)
+						do("offbump", ty, c)
+						if d != 4 && d != 8 {
+							continue
+						}
+						// ... and a later word made to look like a huge first offset: what a
+						// decoder that strays past its series would read as an inner table size
+						padded := append(append([]byte{}, c...), make([]byte, 12)...)
+						for j := i + 4; j+4 <= len(padded); j += 4 {
+							for _, hw := range []uint32{4 << 22, 1 << 24, 0x0ffffffc} {
+								if !thorough() && hw != 4<<22 && (i+j)%8 != 0 {
+									continue
+								}
+								c2 := append([]byte{}, padded...)
+								binary.LittleEndian.PutUint32(c2[j:], hw)
+								do("offbump2", ty, c2)
+								do("offbump2", ty, c2[:len(c)])
+							}
+						}
+					}
+				}
+			}
+		}
+	}
 	// recycled destinations: a flat value that already holds something (small capacities) decodes
 	// a longer input; only the bytes needed may be allocated, not the declared limit
 	{
